@@ -26,7 +26,7 @@ class Obligation:
 
 class Contract:
     def __init__(self, qual, params=None, requires=(), ensures=(), raises=None, modifies=None, loops=None, result=None,
-                 props=(), pure=False, ghost=None, trusted=False, no_raise=True, old_names=None, note="", lemmas=(), allocates=False, cases=()):
+                 props=(), pure=False, ghost=None, trusted=False, no_raise=True, old_names=None, note="", lemmas=(), allocates=False, cases=(), asserts=(), assume_pre=()):
         self.qual = qual
         self.params = params or {}          # name -> type descriptor
         self.requires = list(requires)      # [expr str]
@@ -44,6 +44,8 @@ class Contract:
         self.trusted = trusted              # assumed (A): external function, no body obligations
         self.ghost = ghost or {}
         self.note = note
+        self.assume_pre = list(assume_pre)  # callee quals whose preconditions are ASSUMED at this function's call sites (listed as assumptions)
+        self.asserts = list(asserts)        # [(name, anchor: prefix of the unparsed statement, expr)]: checked just before that statement runs
         self.cases = list(cases)            # exhaustive case split of the entry state (each case verified separately; exhaustiveness is an obligation)
         self.allocates = allocates          # the callee may allocate objects (all field arrays are re-framed at call sites)
         self.lemmas = list(lemmas)          # [(lemma name, instance expr)]: instances of separately proved lemmas, assumed at entry
@@ -119,7 +121,7 @@ def heap_typing(ctx, heap):
     out = []
     o, k = z3.Int("o!ht"), z3.Int("k!ht")
     al = heap["@alloc"]
-    out.append(z3.ForAll([o], heap["@len"][o] >= 0, patterns=[heap["@len"][o]]))
+    out.append(safe_forall([o], heap["@len"][o] >= 0, patterns=[heap["@len"][o]]))
     seen = set()
     for cls, fields in ctx.schema.items():
         for f, t in fields.items():
@@ -129,15 +131,15 @@ def heap_typing(ctx, heap):
             base, arg, opt = parse_type(t)
             live = z3.And(al[o], z3.Not(heap[f + "?"][o])) if opt else al[o]
             if base == "enum":
-                out.append(z3.ForAll([o], z3.Implies(live, z3.And(0 <= heap[f][o], heap[f][o] < len(ctx.enums[arg]))), patterns=[heap[f][o]]))
+                out.append(safe_forall([o], z3.Implies(live, z3.And(0 <= heap[f][o], heap[f][o] < len(ctx.enums[arg]))), patterns=[heap[f][o]]))
             elif base == "ref":
-                out.append(z3.ForAll([o], z3.Implies(live, al[heap[f][o]]), patterns=[heap[f][o]]))
+                out.append(safe_forall([o], z3.Implies(live, al[heap[f][o]]), patterns=[heap[f][o]]))
             elif base == "list":
-                out.append(z3.ForAll([o], z3.Implies(live, al[heap[f][o]]), patterns=[heap[f][o]]))
+                out.append(safe_forall([o], z3.Implies(live, al[heap[f][o]]), patterns=[heap[f][o]]))
                 eb = parse_type(arg)[0]
                 if eb in ("ref", "list"):
                     lst = heap[f][o]
-                    out.append(z3.ForAll([o, k], z3.Implies(z3.And(live, 0 <= k, k < heap["@len"][lst]), al[heap["@el"][lst][k]]),
+                    out.append(safe_forall([o, k], z3.Implies(z3.And(live, 0 <= k, k < heap["@len"][lst]), al[heap["@el"][lst][k]]),
                                          patterns=[heap["@el"][heap[f][o]][k]]))
     return out
 
@@ -327,11 +329,11 @@ class Exec:
         return ListV(r, elem)
 
     def llen(self, st, lst, heap=None):
-        heap = heap if heap is not None else st.heap
+        heap = heap if heap is not None else (getattr(lst, "frozen_heap", None) or st.heap)
         return heap["@len"][lst.v]
 
     def lget(self, st, lst, idx, heap=None):
-        heap = heap if heap is not None else st.heap
+        heap = heap if heap is not None else (getattr(lst, "frozen_heap", None) or st.heap)
         return wrap(heap["@el"][lst.v][idx], lst.elem)
 
     def lset_arr(self, st, lst, arr, length):
@@ -532,7 +534,7 @@ class Exec:
         arr = fresh("cat", z3.ArraySort(I, I))
         k = fresh("k")
         ea, eb = st.heap["@el"][a.v], st.heap["@el"][b.v]
-        st.pc.append(z3.ForAll([k], z3.Implies(z3.And(0 <= k, k < na + nb), arr[k] == z3.If(k < na, ea[k], eb[k - na])), patterns=[arr[k]]))
+        st.pc.append(safe_forall([k], z3.Implies(z3.And(0 <= k, k < na + nb), arr[k] == z3.If(k < na, ea[k], eb[k - na])), patterns=[arr[k]]))
         return self.new_list(st, a.elem, na + nb, arr)
 
     # ------------------------------------------------------------------ expressions
@@ -780,7 +782,7 @@ class Exec:
             arr = fresh("slc", z3.ArraySort(I, I))
             k = fresh("k")
             src = st.heap["@el"][c.v]
-            st.pc.append(z3.ForAll([k], z3.Implies(z3.And(0 <= k, k < b - a), arr[k] == src[k + a]), patterns=[arr[k]]))
+            st.pc.append(safe_forall([k], z3.Implies(z3.And(0 <= k, k < b - a), arr[k] == src[k + a]), patterns=[arr[k]]))
             return self.new_list(st, c.elem, b - a, arr)
         raise VCError(f"slice of {c!r}")
 
@@ -866,7 +868,7 @@ class Exec:
             else:
                 raise VCError(f"comprehension element {val!r}")
             arr = fresh("cmp", z3.ArraySort(I, I))
-            st.pc.append(z3.ForAll([k], z3.Implies(z3.And(0 <= k, k < n), arr[k] == val.v), patterns=[arr[k]]))
+            st.pc.append(safe_forall([k], z3.Implies(z3.And(0 <= k, k < n), arr[k] == val.v), patterns=[arr[k]]))
             st.pc += [p for p in st2.pc[len(st.pc) - 1:] if False]
             return self.new_list(st, elem, n, arr)
         raise VCError(f"list comprehension over {src!r} (filter={bool(g.ifs)}) at line {e.lineno}")
@@ -883,7 +885,7 @@ class Exec:
         n = z3.If(hi > lo, hi - lo, 0)
         arr = fresh("rng", z3.ArraySort(I, I))
         k = fresh("k")
-        st.pc.append(z3.ForAll([k], z3.Implies(z3.And(0 <= k, k < n), arr[k] == lo + k), patterns=[arr[k]]))
+        st.pc.append(safe_forall([k], z3.Implies(z3.And(0 <= k, k < n), arr[k] == lo + k), patterns=[arr[k]]))
         return self.new_list(st, "int", n, arr)
 
     def bind(self, target, val, st):
@@ -1020,7 +1022,7 @@ class Exec:
                     n = self.llen(st, c)
                     j = fresh("j")
                     st.pc.append(z3.Implies(z3.And(self.guards) if self.guards else TRUE, z3.And(0 <= r, r < n, self.eq(self.lget(st, c, r), x, st),
-                                        z3.ForAll([j], z3.Implies(z3.And(0 <= j, j < r), z3.Not(self.eq(self.lget(st, c, j), x, st)))))))
+                                        safe_forall([j], z3.Implies(z3.And(0 <= j, j < r), z3.Not(self.eq(self.lget(st, c, j), x, st)))))))
                     return Num(r)
             if f.attr == "get" and isinstance(self.peek(f.value, st), DictObj):
                 c = self.ev(f.value, st)
@@ -1171,7 +1173,7 @@ class Exec:
             if n == "any":
                 return BoolV(z3.Exists([k], z3.And(rng, c, tv)))
             if n == "all":
-                return BoolV(z3.ForAll([k], z3.Implies(z3.And(rng, c), tv)))
+                return BoolV(safe_forall([k], z3.Implies(z3.And(rng, c), tv)))
             raise VCError("next() over heap list: hoist through a contract")
         raise VCError(f"{n}() over {src!r}")
 
@@ -1197,6 +1199,14 @@ class Exec:
         m = getattr(self, "st_" + type(x).__name__, None)
         if m is None:
             raise VCError(f"statement {type(x).__name__} outside subset at line {x.lineno}")
+        if self.contract is not None and self.contract.asserts and self.depth == 0 and not self.silent and not isinstance(x, (ast.If, ast.For, ast.While)):
+            src = " ".join(ast.unparse(x).split())
+            for nm, anchor, expr in self.contract.asserts:
+                if src.startswith(" ".join(anchor.split())):
+                    t = st.cp()
+                    g = self.truth(self.spec_ev(expr, t), t)
+                    self.oblige(f"assert-at[{nm}]@{x.lineno}", t, g, "assert-at", text=expr)
+                    self.__dict__.setdefault("anchors_hit", set()).add(nm)
         return m(x, st)
 
     def desugar_comprehensions(self, x):
@@ -1361,6 +1371,11 @@ class Exec:
         if isinstance(tgt, ast.Name):
             if isinstance(v, ConstList) and not self.keep_const_list(v):
                 v = self.materialise(st, v)
+            if isinstance(v, ListV) and tgt.id in getattr(self, "frozen_locals", ()) and self.depth == 0:
+                # a local list that is never mutated, stored or passed on after this (single) assignment: its content is fixed here
+                v = ListV(v.v, v.elem, v.none)
+                v.frozen_heap = dict(st.heap)
+                self.notes.append(f"A: local list `{tgt.id}` is never mutated or passed on after its construction in {self.qual} (checked syntactically)")
             st.env[tgt.id] = v
             return [("n", st, None)]
         if isinstance(tgt, ast.Tuple):
@@ -1505,6 +1520,74 @@ class Exec:
         return outs
 
     # -- loops ---------------------------------------------------------------------
+    @staticmethod
+    def readonly_list_params(fn):
+        """parameters that are only ever read: used as `for x in p`, `p[i]`, `len(p)`"""
+        params = {a.arg for a in fn.args.args} - {"self"}
+        bad = set()
+        for n in ast.walk(fn):
+            if isinstance(n, ast.Name) and n.id in params:
+                par = getattr(n, "_parent", None)
+            if isinstance(n, ast.Call):
+                for a in list(n.args) + [k.value for k in n.keywords]:
+                    if isinstance(a, ast.Name) and a.id in params and not (isinstance(n.func, ast.Name) and n.func.id in ("len", "enumerate", "range", "isinstance")):
+                        bad.add(a.id)
+                if isinstance(n.func, ast.Attribute) and isinstance(n.func.value, ast.Name) and n.func.value.id in params:
+                    bad.add(n.func.value.id)
+            if isinstance(n, (ast.Assign, ast.AugAssign, ast.AnnAssign)):
+                val = n.value
+                for y in ast.walk(val) if val is not None else []:
+                    if isinstance(y, ast.Name) and y.id in params and not isinstance(getattr(y, "ctx", None), ast.Store):
+                        # p appears on a right-hand side: allowed only under len(p) / p[i]
+                        pass
+                tg = n.targets if isinstance(n, ast.Assign) else [n.target]
+                for t in tg:
+                    for y in ast.walk(t):
+                        if isinstance(y, ast.Name) and y.id in params:
+                            bad.add(y.id)
+                if isinstance(val, ast.Name) and val.id in params:
+                    bad.add(val.id)
+            if isinstance(n, (ast.Return, ast.Yield)) and isinstance(n.value, ast.Name) and n.value.id in params:
+                bad.add(n.value.id)
+            if isinstance(n, (ast.List, ast.Tuple, ast.Dict)):
+                for y in ast.iter_child_nodes(n):
+                    if isinstance(y, ast.Name) and y.id in params:
+                        bad.add(y.id)
+        return params - bad
+
+    @staticmethod
+    def frozen_list_locals(fn):
+        """locals assigned exactly once (from a comprehension) and afterwards only indexed / iterated / measured / returned"""
+        assigned = {}
+        for n in ast.walk(fn):
+            if isinstance(n, ast.Assign) and len(n.targets) == 1 and isinstance(n.targets[0], ast.Name):
+                assigned.setdefault(n.targets[0].id, []).append(n)
+            elif isinstance(n, (ast.AugAssign, ast.AnnAssign, ast.For)) and isinstance(getattr(n, "target", None), ast.Name):
+                assigned.setdefault(n.target.id, []).append(n)
+        cands = {k for k, v in assigned.items() if len(v) == 1 and isinstance(v[0], ast.Assign) and isinstance(v[0].value, ast.ListComp)}
+        bad = set()
+        for n in ast.walk(fn):
+            if isinstance(n, ast.Call):
+                for a in list(n.args) + [k.value for k in n.keywords]:
+                    if isinstance(a, ast.Name) and a.id in cands and not (isinstance(n.func, ast.Name) and n.func.id in ("len", "enumerate", "range")):
+                        bad.add(a.id)
+                if isinstance(n.func, ast.Attribute) and isinstance(n.func.value, ast.Name) and n.func.value.id in cands:
+                    bad.add(n.func.value.id)
+            if isinstance(n, (ast.Assign, ast.AugAssign)):
+                tg = n.targets if isinstance(n, ast.Assign) else [n.target]
+                for t in tg:
+                    if isinstance(t, ast.Subscript) and isinstance(t.value, ast.Name) and t.value.id in cands:
+                        bad.add(t.value.id)
+                if isinstance(n.value, ast.Name) and n.value.id in cands:
+                    bad.add(n.value.id)
+            if isinstance(n, (ast.List, ast.Tuple, ast.Dict)):
+                for y in ast.iter_child_nodes(n):
+                    if isinstance(y, ast.Name) and y.id in cands:
+                        bad.add(y.id)
+            if isinstance(n, ast.Nonlocal):
+                bad |= set(n.names)
+        return cands - bad
+
     def name_loops(self, fn):
         """loop names are syntactic: pre-order position among the for/while loops (and desugared comprehensions) of the function"""
         locs = []
@@ -1669,7 +1752,7 @@ class Exec:
             for a in ("@len", "@el", "@alloc"):
                 h.heap[a] = fresh("H" + a[1:], h.heap[a].sort())
             r = fresh("r")
-            h.pc.append(z3.ForAll([r], z3.Implies(entry_heap["@alloc"][r], h.heap["@alloc"][r]), patterns=[h.heap["@alloc"][r]]))
+            h.pc.append(safe_forall([r], z3.Implies(entry_heap["@alloc"][r], h.heap["@alloc"][r]), patterns=[h.heap["@alloc"][r]]))
         if lists or fields:
             h.pc += heap_typing(self.ctx, h.heap)
         i = fresh("i") if isfor else None
@@ -1684,6 +1767,7 @@ class Exec:
             n_ = self.iter_len(L, body)
             body.pc += [0 <= i, i < n_]
             self.bind_iter(x, L, i, body, enum)
+            body.env["@i_" + name] = Num(i)
         else:
             c = self.truth(self.ev(x.test, body), body)
             body.pc.append(c)
@@ -1758,12 +1842,14 @@ class Exec:
     def iter_len(self, L, st):
         if isinstance(L, ConstList):
             return z3.IntVal(len(L.items))
+        if getattr(L, "frozen_heap", None) is not None:
+            return L.frozen_heap["@len"][L.v]
         return self.llen(st, L)
 
     def bind_iter(self, x, L, i, st, enum):
         if isinstance(L, ConstList):
             raise VCError("invariant loop over constant list (should be unrolled)")
-        el = self.lget(st, L, i)
+        el = self.lget(st, L, i, heap=getattr(L, "frozen_heap", None))
         if enum:
             self.bind(x.target, TupleV([Num(i), el]), st)
         else:
@@ -1780,6 +1866,8 @@ class Exec:
             s = s.cp()
             if isinstance(e, ast.Call) and isinstance(e.func, ast.Name) and e.func.id == "range":
                 L = self.range_list(e, s)
+                if isinstance(L, ListV):
+                    L.frozen_heap = dict(s.heap)       # an anonymous range object cannot be mutated by the loop body
             else:
                 L = self.ev(e, s)
             if isinstance(L, ConstList):
@@ -1789,6 +1877,11 @@ class Exec:
             if not isinstance(L, ListV):
                 raise VCError(f"for over {L!r} at line {x.lineno}")
             self.need(L, s, "iterable")
+            if isinstance(e, ast.Name) and e.id in getattr(self, "readonly_params", ()):
+                # a list parameter that this function never mutates, stores or passes on: iterate over its entry content
+                L = ListV(L.v, L.elem, L.none)
+                L.frozen_heap = s.meta.get("old_heap")
+                self.notes.append(f"A: parameter list `{e.id}` is read-only in {self.qual} (checked syntactically: never mutated, assigned, stored or passed to a call) and therefore unreachable for callees")
             # structural mutation of the iterated list inside the body is outside the subset
             return self.run_loop(x, s, iter_list=L, enum=enum)
         return self.hoisted(it, st, cont)
